@@ -419,3 +419,52 @@ def target_items_step():
 
 
 TARGETS["items_step"] = target_items_step
+
+
+def target_parallel_goto():
+    """lr1.Grammar._parallel_goto (C08: GOTO of a state on every symbol at once): for item sets built from real Item tuples -
+    completed items, items before a terminal, before a nonterminal, several items before the same symbol - and closures that
+    are cached or not:
+
+        result[X]  ==  the union, over the items [A -> u . X v, a] of the state, of closure([A -> u X . v, a])     for every X
+        no entry for a symbol that no item of the state has after its dot (completed items contribute nothing)
+    where closure() is _closure_of_item (its own contract, C08) or its memo table, which holds the same sets."""
+    lr1 = importlib.import_module("compiler.front_end.lr1")
+    pt = importlib.import_module("compiler.util.parser_types")
+    import collections
+    eng = pyvc.Engine()
+    eng.contract(collections.defaultdict, lambda interp, factory=None: collections.defaultdict(set), "collections.defaultdict(set)")
+    P1, P2, P3 = pt.Production("A", ("x", "B")), pt.Production("B", ("x",)), pt.Production("C", ("B", "y"))
+
+    def mk(prod, dot, la):
+        return lr1.Item(prod, dot, la, prod.rhs[dot] if dot < len(prod.rhs) else None)
+
+    def harness(c):
+        shape = c.choice("state", ["one-shift", "two-items-same-symbol", "terminal-and-nonterminal", "only-completed", "mixed"])
+        cached = c.choice("closure-cache", ["empty", "all", "some"])
+        its = {"one-shift": [mk(P1, 0, "$")], "two-items-same-symbol": [mk(P1, 0, "$"), mk(P2, 0, "y")], "terminal-and-nonterminal": [mk(P1, 0, "$"), mk(P3, 0, "$")],
+               "only-completed": [mk(P2, 1, "$")], "mixed": [mk(P1, 0, "$"), mk(P1, 1, "$"), mk(P2, 1, "y"), mk(P3, 0, "a"), mk(P2, 0, "y")]}[shape]
+        adv = {i: mk(i.production, i.dot + 1, i.terminal) for i in its if i.next_symbol is not None}
+        item_cache = {(a.production, a.dot, a.terminal): a for a in adv.values()}
+        clos = {a: frozenset({"cl:%s:%d:%s" % (a.production.lhs, a.dot, a.terminal), "shared"}) for a in adv.values()}
+        keys = sorted(clos, key=str)
+        memo = {a: clos[a] for j, a in enumerate(keys) if cached == "all" or (cached == "some" and j % 2 == 0)}
+        called = []
+
+        def closure(interp, obj, item):
+            called.append(item)
+            return clos[item]
+        me = GObj("grammar", methods={"_closure_of_item": closure}, attrs={"_item_cache": item_cache, "_closure_of_item_cache": memo})
+        c.covered = True
+        st, got = pyvc.run_body(c, "compiler.front_end.lr1.Grammar._parallel_goto", [me, set(its)])
+        want = collections.defaultdict(set)
+        for i in its:
+            if i.next_symbol is not None:
+                want[i.next_symbol] |= clos[adv[i]]
+        c.oblige("goto-of-every-symbol-is-the-union-of-the-closures-of-the-advanced-items", isinstance(got, dict) and {k2: set(v) for k2, v in got.items()} == dict(want), detail=repr(got)[:300])
+        c.oblige("memoised-closures-are-not-recomputed", all(x not in memo for x in called), detail=repr(called)[:200])
+    paths = eng.explore(harness)
+    return pyvc.collect(paths, "Grammar._parallel_goto"), sum(1 for p in paths if p.covered)
+
+
+TARGETS["parallel_goto"] = target_parallel_goto
